@@ -170,7 +170,7 @@ def parse_evals(out):
     return vals
 
 
-_TOK = re.compile(r"\[|\]|;|\(|\)|-?\d+|%\w+|[A-Za-z_][\w.']*|\"(?:[^\"]|\"\")*\"|,|#")
+_TOK = re.compile(r"\[|\]|;|\(|\)|-?\d+(?:\.\d+)?|%\w+|[A-Za-z_][\w.']*|\"(?:[^\"]|\"\")*\"|,|#")
 
 
 def parse_term(s):
@@ -216,6 +216,8 @@ def parse_term(s):
             return first
         if re.fullmatch(r"-?\d+", t):
             return int(t)
+        if re.fullmatch(r"-?\d+\.\d+", t):
+            return Fraction(t)
         if t.startswith('"'):
             return t[1:-1].replace('""', '"')
         return ("@", t)
